@@ -16,8 +16,8 @@ import (
 type VK int
 
 const (
-	VNull VK = iota
-	VBottom // the value of a disabled or empty-mapped call's output
+	VNull   VK = iota
+	VBottom    // the value of a disabled or empty-mapped call's output
 	VBool
 	VNum
 	VStr
@@ -37,13 +37,13 @@ type Val struct {
 	Deps map[string]bool
 }
 
-func Null() *Val           { return &Val{K: VNull} }
-func Bottom() *Val         { return &Val{K: VBottom} }
-func Bool(b bool) *Val     { return &Val{K: VBool, B: b} }
-func Int(i int64) *Val     { return &Val{K: VNum, N: strconv.FormatInt(i, 10)} }
-func Num(s string) *Val    { return &Val{K: VNum, N: s} }
-func Str(s string) *Val    { return &Val{K: VStr, S: s} }
-func Arr(a ...*Val) *Val   { return &Val{K: VArr, A: a} }
+func Null() *Val         { return &Val{K: VNull} }
+func Bottom() *Val       { return &Val{K: VBottom} }
+func Bool(b bool) *Val   { return &Val{K: VBool, B: b} }
+func Int(i int64) *Val   { return &Val{K: VNum, N: strconv.FormatInt(i, 10)} }
+func Num(s string) *Val  { return &Val{K: VNum, N: s} }
+func Str(s string) *Val  { return &Val{K: VStr, S: s} }
+func Arr(a ...*Val) *Val { return &Val{K: VArr, A: a} }
 func Obj(m map[string]*Val) *Val {
 	if m == nil {
 		m = map[string]*Val{}
